@@ -311,7 +311,7 @@ def p_c15(facts, rep, tier):
         "FinishedSession.take_global_guard = access_guard.is_some(); L5 - root check and root store each under Nomt.shared and both under one "
         "access write-guard acquisition; L6 - begin_session takes the access read guard (iff take_global_guard), stores it in the Session and "
         "takes it before anything that opens a read transaction; L7 - block_until_zero precedes take_staged_changeset/update, add_one precedes "
-        "the snapshot. Observed values, channel/condvar liveness and fairness are not decided."
+        "the snapshot; L8 - Nomt::read looks the value up under an access guard taken blockingly (or by a try whose refusal leaves before the lookup). Observed values, channel/condvar liveness and fairness are not decided."
     )
     st = strands.Strands(facts)
     M, n1, npairs = lockgraph.run(facts, rep, st)
@@ -320,6 +320,7 @@ def p_c15(facts, rep, tier):
     n5 = lockgraph.l5(facts, rep, M)
     n6 = lockgraph.l6(facts, rep, M)
     n7 = lockgraph.l7(facts, rep, M)
+    lockgraph.l8(facts, rep, M)
     nw = witness.run(rep, ["c15"]) if tier != "control" else 99
     rep.floor("lock classes", len(rep.extra["lock_classes"]), 14)
     rep.floor("acquisition sites", rep.extra["acquisition_sites"], 39)
@@ -411,7 +412,7 @@ def p_c04(facts, rep, tier):
         "that file starts, and that fsync lies on every success path to Meta::write (O2); Meta::write syncs the meta page (O4) and everything destructive (hash-table writeout, WAL truncation, rollback-log pruning) starts only after it returned Ok (O3); hash-table page "
         "writes are drained and the file fsynced before the WAL is truncated, in post_meta (O5) and in recovery (O6); a rollback record is "
         "written and fsynced, and a newly created segment followed by a directory fsync, before commit returns Ok (O9); pruning orders unlink -> "
-        "dir fsync -> head truncation -> fsync (O10); store creation syncs every file and the directory (O11); a WAL blob is only written into an empty WAL file - a truncation to 0 dominates the write, or post_meta and the redo always leave the file empty (O17). Removing any of these fsyncs makes "
+        "dir fsync -> head truncation -> fsync (O10); store creation syncs every file and the directory (O11); a WAL blob is only written into an empty WAL file - a truncation to 0 dominates the write, or post_meta and the redo always leave the file empty (O17); ln / bbn / free-list page writers take page numbers from the allocator only and the allocator from the old free list or beyond the old bump (W2, W6: no page of the previous state is rewritten before the switch-over). Removing any of these fsyncs makes "
         "an obligation underivable. Device semantics and drain-count arithmetic are assumed."
     )
     ctx = sync_ctx(facts)
@@ -428,6 +429,10 @@ def p_c04(facts, rep, tier):
     rep.floor("O2 pre-meta writes", n2, 4)
     rep.floor("O5/O6 truncate_wal barriers examined", n56, 3)
     rep.floor("O17 WAL writes examined", syncorder.o17(ctx, rep), 1)
+    # "nothing the old state depends on is modified before the switch-over is durable": the copy-on-write half (shared with C17)
+    syncorder.w2(ctx, rep)
+    syncorder.w2_freelist(ctx, rep)
+    syncorder.w6(ctx, rep)
     rep.floor("O9 rollback append obligations", n9, 3)
     rep.floor("O11 create obligations", n11, 4)
     _sync_common(rep, ctx)
